@@ -78,6 +78,50 @@ fn closing_probe(a: &mut Vec<i128>) -> String {
 	}
 }
 
+/// prune_probe <has12> <t12> <has21> <t21> <announcement_received_time> <now>
+/// A graph with one channel (received at the given time) and the given directional updates, then the real
+/// `remove_stale_channels_and_tracking_with_time(now)`. Output: channel still known, one_to_two kept,
+/// two_to_one kept. (Built with `_test_utils`, where `update_channel` does not compare timestamps with
+/// the wall clock, so arbitrary timestamps can be stored.)
+fn prune_probe(a: &mut Vec<i128>) -> String {
+	use bitcoin::constants::ChainHash;
+	use bitcoin::Network;
+	use lightning::ln::msgs::UnsignedChannelUpdate;
+	use lightning::routing::gossip::{NetworkGraph, NodeId};
+	use lightning::util::test_utils::TestLogger;
+	let (h12, t12, h21, t21, ann, now) = (a[0] != 0, a[1] as u32, a[2] != 0, a[3] as u32, a[4] as u64, a[5] as u64);
+	let logger = TestLogger::new();
+	let g = NetworkGraph::new(Network::Testnet, &logger);
+	let n1 = NodeId::from_slice(&[2u8; 33]).unwrap();
+	let n2 = NodeId::from_slice(&[3u8; 33]).unwrap();
+	g.add_channel_from_partial_announcement(42, None, ann, lightning::types::features::ChannelFeatures::empty(), n1, n2).unwrap();
+	let mk = |flags: u8, ts: u32| UnsignedChannelUpdate {
+		chain_hash: ChainHash::using_genesis_block(Network::Testnet),
+		short_channel_id: 42,
+		timestamp: ts,
+		message_flags: 1,
+		channel_flags: flags,
+		cltv_expiry_delta: 40,
+		htlc_minimum_msat: 0,
+		htlc_maximum_msat: 1,
+		fee_base_msat: 1,
+		fee_proportional_millionths: 1,
+		excess_data: Vec::new(),
+	};
+	if h12 {
+		if g.update_channel_unsigned(&mk(0, t12)).is_err() { return "error update 0 refused".to_string(); }
+	}
+	if h21 {
+		if g.update_channel_unsigned(&mk(1, t21)).is_err() { return "error update 1 refused".to_string(); }
+	}
+	g.remove_stale_channels_and_tracking_with_time(now);
+	let ro = g.read_only();
+	match ro.channels().get(&42) {
+		Some(c) => format!("1 {} {}", c.one_to_two.is_some() as u8, c.two_to_one.is_some() as u8),
+		None => "0 0 0".to_string(),
+	}
+}
+
 fn main() {
 	if std::env::var("ORACLE_DEBUG").is_err() { std::panic::set_hook(Box::new(|_| {})); }
 	let stdin = std::io::stdin();
@@ -94,6 +138,7 @@ fn main() {
 		let r = catch_unwind(AssertUnwindSafe(|| match name.as_str() {
 			"forward_probe" => forward_probe(&mut args),
 			"closing_probe" => closing_probe(&mut args),
+			"prune_probe" => prune_probe(&mut args),
 			_ => format!("error unknown function {}", name),
 		}));
 		match r {
